@@ -31,9 +31,23 @@ def gen(rng):
         fail = None
     if kind == 'a-range':
         elems = list(range(n))
-    return {'kind': kind, 'elems': elems, 'fail': fail,
+    scen = {'kind': kind, 'elems': elems, 'fail': fail,
             'pd': rng.choice([0, TICK / 2, 5 * TICK, 5 * TICK, 50 * TICK, 300 * TICK]),
             'cd': rng.choice([0, TICK / 2, 5 * TICK, 5 * TICK, 50 * TICK])}
+    if rng.random() < 0.04 and kind not in ('a-list', 'a-range'):
+        # a long source whose consumer is (or starts) far behind: everything the bridge buffers is outstanding at the end
+        n = rng.choice([31, 32, 33, 34, 63, 64, 65, 100, 129, 257])
+        scen['elems'] = [rng.choice(ELEMS) if rng.random() < 0.2 else i for i in range(n)]
+        scen['fail'] = None if kind == 'a-listiter' else rng.choice([None, None, n, n - 1, n // 2])
+        scen['pd'] = 0
+        scen['cd'] = rng.choice([TICK / 2, TICK / 2, 0])
+        scen['late_first_read'] = rng.choice([0, 50 * TICK])
+    elif rng.random() < 0.15:
+        # a second bridge iterated to its end inside the body of the first one's loop (same thread / same task)
+        m = rng.randint(0, 4)
+        scen['inner'] = {'elems': list(range(m)) if kind == 'a-range' else [rng.choice(ELEMS) for _ in range(m)],
+                         'at': rng.randint(0, max(0, n - 1))}
+    return scen
 
 
 def _who():
@@ -65,22 +79,23 @@ class IterHarness:
                 if not s.dead:
                     s.log.append(ev + (s.now,))
 
-            def sgen():
+            def sgen(elems=elems, fail=fail, tag=''):
+                n = len(elems)
                 for i, x in enumerate(elems):
                     if pd:
                         simrt.sim_sleep(pd)
                     box['src_threads'].add(_who())
-                    emit('src_next', i, _who())
+                    emit(tag + 'src_next', i, _who())
                     if fail == i:
                         raise err
                     yield x
-                emit('src_end', _who())
+                emit(tag + 'src_end', _who())
                 if fail == n:
                     raise err
 
             class It:
-                def __init__(self):
-                    self.g = sgen()
+                def __init__(self, *a):
+                    self.g = sgen(*a)
 
                 def __iter__(self):
                     return self
@@ -88,11 +103,12 @@ class IterHarness:
                 def __next__(self):
                     return next(self.g)
 
-            async def agen():
+            async def agen(elems=elems, fail=fail, tag=''):
+                n = len(elems)
                 for i, x in enumerate(elems):
                     if pd:
                         await aio.sleep(pd)
-                    emit('asrc_next', i)
+                    emit(tag + 'asrc_next', i)
                     if fail == i:
                         raise err
                     yield x
@@ -100,8 +116,9 @@ class IterHarness:
                     raise err
 
             class AIt:
-                def __init__(self):
+                def __init__(self, elems=elems, fail=fail, tag=''):
                     self.i = 0
+                    self.elems, self.fail, self.tag = elems, fail, tag
 
                 def __aiter__(self):
                     return self
@@ -111,14 +128,18 @@ class IterHarness:
                         await aio.sleep(pd)
                     i = self.i
                     self.i += 1
-                    emit('asrc_next', i)
+                    elems, fail = self.elems, self.fail
+                    emit(self.tag + 'asrc_next', i)
                     if fail == i:
                         raise err
-                    if i >= n:
-                        if fail == n:
+                    if i >= len(elems):
+                        if fail == len(elems):
                             raise err
                         raise StopAsyncIteration
                     return elems[i]
+
+            inner = scen.get('inner')
+            late = scen.get('late_first_read', 0)
 
             import threading as _th
             real_before = {t.ident for t in _th.enumerate()}
@@ -142,12 +163,24 @@ class IterHarness:
 
                     async def main_coro():
                         tk = aio.ensure_future(ticker())
-                        src = {'a-gen': sgen, 'a-iter': It, 'a-list': lambda: list(elems),
-                               'a-range': lambda: range(n), 'a-listiter': lambda: iter(list(elems))}[kind]()
+                        mk = {'a-gen': lambda e, *a: sgen(e, *a), 'a-iter': lambda e, *a: It(e, *a), 'a-list': lambda e, *a: list(e),
+                              'a-range': lambda e, *a: range(len(e)), 'a-listiter': lambda e, *a: iter(list(e))}[kind]
+                        src = mk(elems, fail, '')
                         try:
-                            async for x in A.to_async_iter(src):
+                            ait = A.to_async_iter(src)
+                            if late:
+                                await aio.sleep(late)
+                            async for x in ait:
                                 box['got'].append(x)
                                 emit('got', len(box['got']) - 1)
+                                if inner is not None and len(box['got']) - 1 == inner['at']:
+                                    box['inner_got'] = []
+                                    async for y in A.to_async_iter(mk(inner['elems'], None, 'in_')):
+                                        box['inner_got'].append(y)
+                                        emit('in_got', len(box['inner_got']) - 1)
+                                        if cd:
+                                            await aio.sleep(cd)
+                                    box['inner_end'] = 'stop'
                                 if cd:
                                     await aio.sleep(cd)
                             box['end'] = 'stop'
@@ -164,12 +197,26 @@ class IterHarness:
                     own = None
                     if kind == 's-agen-loop':
                         own = aio.new_event_loop()
-                    src = AIt() if kind == 's-aiter' else agen()
+                    mk = AIt if kind == 's-aiter' else agen
+                    src = mk()
                     try:
                         it = A.to_sync_iter(src, loop=own) if own is not None else A.to_sync_iter(src)
+                        if late:
+                            it = iter(it)
+                            box['got'].append(next(it))       # (starts the bridge), then falls far behind
+                            emit('got', 0)
+                            s.sleep(late)
                         for x in it:
                             box['got'].append(x)
                             emit('got', len(box['got']) - 1)
+                            if inner is not None and len(box['got']) - 1 == inner['at']:
+                                box['inner_got'] = []
+                                for y in A.to_sync_iter(mk(inner['elems'], None, 'in_')):
+                                    box['inner_got'].append(y)
+                                    emit('in_got', len(box['inner_got']) - 1)
+                                    if cd:
+                                        s.sleep(cd)
+                                box['inner_end'] = 'stop'
                             if cd:
                                 s.sleep(cd)
                         box['end'] = 'stop'
@@ -186,7 +233,7 @@ class IterHarness:
             if delays and hasattr(s, 'line_delays'):
                 s.line_delays = [dict(d) for d in delays]
 
-        r = self.execute(main, strategy, max_steps=60000, watchdog=60.0, pre=pre, max_virtual=90.0)
+        r = self.execute(main, strategy, max_steps=60000 if len(elems) < 30 else 400000, watchdog=60.0, pre=pre, max_virtual=90.0)
         r.extra = box
         return r
 
@@ -202,7 +249,8 @@ class C16(Check):
         'early abandonment by the consumer is outside the statement and not generated',
         'responsiveness is judged only for Iterator sources (plain iterables are iterated inline by design)',
     ]
-    rule = ('cases = sources of length 0-6 (list, range, list iterator, generator, iterator object, async generator, async '
+    rule = ('cases = sources of length 0-6 (4 %: 31-257 elements with the consumer far behind; 15 %: a second bridge iterated '
+            'to its end inside the first one\'s loop body) (list, range, list iterator, generator, iterator object, async generator, async '
             'iterator object; elements None/falsy/duplicates/fresh objects), failure at every position or none, producer and '
             'consumer step durations {0, tick/2, 5 ticks}, to_sync_iter with and without an explicit loop, random/pct/stall '
             'schedules; non-trivial = an Iterator/async source of length >= 2 or a failing source; distinct = (case, baton moves)')
@@ -284,6 +332,16 @@ class C16(Check):
                 if box['end'] is not box['err']:
                     res.violate('C16:error-not-propagated', 'the consumer did not receive the source\'s exception',
                                 end=repr(box['end']), after=len(got))
+            inner = scen.get('inner')
+            if inner is not None and inner['at'] < len(exp):
+                st['nested_second_bridge'] += 1
+                ig = box.get('inner_got')
+                if ig is None or len(ig) != len(inner['elems']) or any(a is not b for a, b in zip(ig, inner['elems'])) \
+                        or box.get('inner_end') != 'stop':
+                    res.violate('C16:sequence', 'a second bridge iterated inside the first one\'s loop body did not yield its source',
+                                got=[repr(x) for x in ig or []], expected=[repr(x) for x in inner['elems']])
+            if len(elems) >= 30:
+                st['long_source_consumer_behind'] += 1
             if box['alive']:
                 res.violate('C16:helper-thread-left', 'a helper thread was still running when iteration finished',
                             threads=box['alive'])
@@ -315,7 +373,7 @@ class C16(Check):
     def floors(self, tier):
         k = 2 if tier == 'quick' else 30
         return {'nontrivial': 10000 * k, 'long_delay_injected': 1000 * k, 'failing_source': 5000 * k, 'responsiveness_judged': 1000 * k,
-                'kind_s-agen': 1000 * k, 'kind_a-gen': 1000 * k, 'fail_at_start': 500 * k, 'fail_at_end': 500 * k,
+                'nested_second_bridge': 1000 * k, 'long_source_consumer_behind': 500 * k, 'kind_s-agen': 1000 * k, 'kind_a-gen': 1000 * k, 'fail_at_start': 500 * k, 'fail_at_end': 500 * k,
                 'fail_at_middle': 500 * k}
 
 
